@@ -136,11 +136,15 @@ Section FMTerm.
   Lemma fm_fin_mu : forall st : fm_st R,
       fm_mu (snd (fm_fin st)) + (if fst (fm_fin st) then 0 else 1) <= fm_mu st.
   Proof.
-    intros st. unfold fm_fin. pose proof (fm_ready_mu st) as Q.
-    destruct (fm_ready st) as [r st1]. cbn [fst snd] in *. destruct r; cbn [fst snd]; [|lia].
-    cbn [R rec_push fin]. pose proof (rec_fin_mu (snd st1)) as M.
-    destruct (rec_fin (snd st1)) as [r2 s2]. unfold fm_mu in *. destruct st as [b0 s0], st1 as [b1 s1].
-    cbn [fst snd] in *. destruct r2; unfold mu_ds, npend in *; lia.
+    intros [buf s0]. unfold fm_fin. cbn [fst snd]. destruct buf as [bi|].
+    - unfold fm_fin_drain. pose proof (fm_ready_mu (Some bi, s0)) as Q.
+      destruct (fm_ready (Some bi, s0)) as [r st1]. cbn [fst snd] in *. destruct r; cbn [fst snd]; [|lia].
+      cbn [R rec_push fin]. pose proof (rec_fin_mu (snd st1)) as M.
+      destruct (rec_fin (snd st1)) as [r2 s2]. unfold fm_mu in *. destruct st1 as [b1 s1].
+      cbn [fst snd] in *. destruct r2; unfold mu_ds, npend in *; lia.
+    - cbn [R rec_push fin]. pose proof (rec_fin_mu s0) as M.
+      destruct (rec_fin s0) as [r2 s2]. unfold fm_mu. cbn [fst snd] in *.
+      destruct r2; unfold mu_ds, npend in *; lia.
   Qed.
 
   Theorem flat_map_terminates : forall fuel items rs0 fs0,
